@@ -98,6 +98,29 @@ def sweep_ioerror(prop, seed, cfg, ops, tier, agg):
             ops2 = _variant(ops, j, f, True)
             r = run_case(prop, cfg, ops2)
             agg.add_result(seed, cfg, ops2, r)
+            if ops[j]["op"] in READS and s[1] == "read" and mode == "pre":
+                # a read that died in the middle of rebuilding the index:
+                # ask for sizes straight away, through the database and
+                # through measurement handles
+                ops3 = ops2[:j + 1] + _size_probes(rng, ops[:j + 1]) + \
+                    ops2[j + 1:]
+                r = run_case(prop, cfg, ops3)
+                agg.add_result(seed, cfg, ops3, r)
+
+
+def _size_probes(rng, ops):
+    names = []
+    for o in ops:
+        cand = [o.get("m")] + [pt.get("m") for pt in
+                               ([o["pt"]] if isinstance(o.get("pt"), dict)
+                                else []) + [x for x in o.get("pts", ())
+                                            if isinstance(x, dict)]]
+        for m in cand:
+            if isinstance(m, str) and m and m not in names:
+                names.append(m)
+    names = _pick(rng, sorted(names), 2) + ["_default"]
+    return [{"op": "len", "m": m, "via": "h"} for m in names] + \
+        [{"op": "len"}]
 
 
 def sweep_collab(prop, seed, cfg, ops, tier, agg):
@@ -228,10 +251,14 @@ def sweep_index(prop, seed, cfg, ops, tier, agg):
     w = base.world
     rng = random.Random(seed * 7919 + 6)
     targets = [j for j, op in enumerate(ops)
-               if any(s[1] == "read" for s in w.op_steps.get(j, ()))]
+               if any(s[1] in PRE_ELIGIBLE for s in w.op_steps.get(j, ()))]
     for j in _pick(rng, targets, 2 if tier == "quick" else 6):
         reads = [s for s in w.op_steps[j] if s[1] == "read"]
-        for s in _pick(rng, reads, 2 if tier == "quick" else 6):
+        others = [s for s in w.op_steps[j] if s[1] in PRE_ELIGIBLE and
+                  s[1] != "read"]
+        chosen = _pick(rng, reads, 1 if tier == "quick" else 4) + \
+            _pick(rng, others, 2 if tier == "quick" else 6)
+        for s in chosen:
             f = {"step": s[0], "mode": "pre", "err": "EIO"}
             ops2 = _variant(ops, j, f, False)
             r = run_case(prop, cfg, ops2)
